@@ -208,6 +208,11 @@ func (s *MuxSim) resolve(op *MuxOp) int {
 		return int(op.PID)
 	}
 	if p, ok := s.PIDOf[op.H]; ok {
+		// a handle whose stream was removed is a raw PID again (it may meanwhile belong to an
+		// automatic stream not yet revealed)
+		if s.find(p) < 0 && s.unlearned() {
+			return -1
+		}
 		return p
 	}
 	return -1
